@@ -565,7 +565,7 @@ func childProbe(name string) (out string, ok bool) {
 	if err != nil {
 		return err.Error(), false
 	}
-	cmd := execCommand("sh", "-c", "ulimit -v 2000000; exec \"$0\" C25-child -arg \"$1\"", self, name)
+	cmd := execCommand("sh", "-c", "ulimit -v 800000; exec \"$0\" C25-child -arg \"$1\"", self, name)
 	b, err := runWithTimeout(cmd, 8*time.Second)
 	s := string(b)
 	if len(s) > 300 {
